@@ -5,18 +5,21 @@ from . import common as C
 
 KEEP = {"SpawnLock", "SpawnAppend", "SpawnUnlock", "SpawnGo", "Offer", "Cancel", "WaitRLock", "WaitSnapUnlock", "WaitRecv",
         "WaitPollEmpty", "WaitNilLock", "WaitNilAssign", "WaitNilUnlock", "WaitErrLock", "WaitErrCancel", "WaitErrUnlock",
-        "WaitDrainRecv", "WaitReturnErr", "WaitReturnNil", "WaitSleep"}
+        "WaitDrainRecv", "WaitReturnErr", "WaitReturnNil", "WaitSleep",
+        "PreJoin", "Joined", "JoinFailed", "JoinCancelled", "WatchRLock", "WatchReturn"}
 
 SAFETY = ("LockDiscipline WaitOnlyAfterAllDone FatalReported ReportedIsReal LocksReleasedOnReturn ListEmptyOnReturn "
-          "NoCoreStranded DeadlockFree")
+          "NoCoreStranded DeadlockFree JoinSound NoJoinerLeft WatchSound WatchHoldsNoLockWhileCoresRun")
 
 
 def cfg(variant="fixed", cores=3, spawns=2, fatal=1, calls=2, cancel=True, work=1, spec="Spec", invs=SAFETY, props="",
-        hist=False, strict=False):
+        hist=False, strict=False, joins=0, watch="none", parent_only=True):
     return ("SPECIFICATION %s\nCONSTANTS\n Variant = \"%s\"\n MaxCores = %d\n MaxSpawns = %d\n MaxFatal = %d\n"
-            " MaxCalls = %d\n AllowCancel = %s\n InitWork = %d\n RecordHist = %s\n StrictCancel = %s\n%s%sCHECK_DEADLOCK FALSE\n" % (
+            " MaxCalls = %d\n AllowCancel = %s\n InitWork = %d\n RecordHist = %s\n StrictCancel = %s\n MaxJoins = %d\n"
+            " JoinParentOnly = %s\n Watch = \"%s\"\n%s%sCHECK_DEADLOCK FALSE\n" % (
                 spec, variant, cores, spawns, fatal, calls, "TRUE" if cancel else "FALSE", work,
-                "TRUE" if hist else "FALSE", "TRUE" if strict else "FALSE", ("INVARIANTS %s\n" % invs) if invs else "",
+                "TRUE" if hist else "FALSE", "TRUE" if strict else "FALSE", joins, "TRUE" if parent_only else "FALSE", watch,
+                ("INVARIANTS %s\n" % invs) if invs else "",
                 ("PROPERTIES %s\n" % props) if props else ""))
 
 
@@ -30,6 +33,27 @@ def model_check(rep, thorough):
                   timeout=1800, heap="16g")
     C.tlc_must_pass(r, "HmsCores liveness (fixed)")
     rep.add_tlc(r)
+    # joins: a core inside h.join() ends the join only after the thread has ended, nobody stays inside a join
+    r = C.run_tlc("HmsCores", cfg(cores=4 if thorough else 3, spawns=3 if thorough else 2, calls=1, joins=3 if thorough else 2,
+                                  props="JoinEndsAfterThread"), timeout=1800, heap="16g")
+    C.tlc_must_pass(r, "HmsCores safety with joins")
+    rep.add_tlc(r)
+    r = C.run_tlc("HmsCores", cfg(spec="FairSpec", cores=3 if thorough else 2, spawns=2 if thorough else 1, calls=1, joins=2, invs="",
+                                  props="JoinsEnd CancelLeadsToReturn OffersAreTaken"), timeout=1800, heap="16g")
+    C.tlc_must_pass(r, "HmsCores liveness with joins")
+    rep.add_tlc(r)
+    # WaitNonConsuming beside Wait: as repaired it disturbs nothing and returns; as found it wedges everything
+    r = C.run_tlc("HmsCores", cfg(cores=3 if thorough else 2, spawns=2 if thorough else 1, calls=2, watch="fixed"), timeout=1800, heap="16g")
+    C.tlc_must_pass(r, "HmsCores safety with a watcher")
+    rep.add_tlc(r)
+    r = C.run_tlc("HmsCores", cfg(spec="FairSpecW", cores=2, spawns=1, calls=1, watch="fixed", invs="",
+                                  props="WatchReturns CancelLeadsToReturn OffersAreTaken"), timeout=1800, heap="16g")
+    C.tlc_must_pass(r, "HmsCores liveness with a watcher")
+    rep.add_tlc(r)
+    r = C.run_tlc("HmsCores", cfg(cores=2, spawns=1, calls=1, watch="orig", invs="NoCoreStranded"), timeout=600)
+    if r.ok:
+        raise C.Machinery("HmsCores: the watcher as found is not refuted (vacuous property?)")
+    rep.notes["orig_watcher_refuted"] = ["NoCoreStranded"]
     refuted = []
     for inv in ("WaitOnlyAfterAllDone", "LocksReleasedOnReturn", "NoCoreStranded"):
         r = C.run_tlc("HmsCores", cfg(variant="orig", invs=inv), timeout=600)
@@ -81,8 +105,9 @@ def validate(traces, rep, max_cores=14):
     text = "\n".join(json.dumps(x) for x in lines) + "\n"
     cfgt = ("SPECIFICATION TraceSpec\nCONSTANTS\n Variant = \"fixed\"\n MaxCores = %d\n MaxSpawns = 100\n MaxFatal = 100\n"
             " MaxCalls = 100\n AllowCancel = TRUE\n InitWork = 0\n RecordHist = FALSE\n StrictCancel = FALSE\n"
+            " MaxJoins = 100000\n JoinParentOnly = FALSE\n Watch = \"fixed\"\n"
             "INVARIANTS LockDiscipline WaitOnlyAfterAllDone FatalReported ReportedIsReal LocksReleasedOnReturn "
-            "ListEmptyOnReturn Progress\nPOSTCONDITION TraceAccepted\nCHECK_DEADLOCK FALSE\n" % max_cores)
+            "ListEmptyOnReturn JoinSound NoJoinerLeft WatchSound Progress\nPOSTCONDITION TraceAccepted\nCHECK_DEADLOCK FALSE\n" % max_cores)
     r = C.run_tlc("TraceCores", cfgt, files=[("cores_trace.ndjson", text)], workers=1, timeout=1200, heap="8g",
                   tags=("PROGRESS",))
     rep.add_tlc(r)
